@@ -35,6 +35,15 @@ argparser.add_argument("--version", "-v", action="version", version=f"%(prog)s {
 
 
 def main_cli():
+    # Diagnostics quote source text and file names, which may contain characters that the output
+    # encoding cannot represent (e.g. a lone surrogate built with '<n>'); never die printing them
+    for stream in (sys.stdout, sys.stderr):
+        if hasattr(stream, "reconfigure"):
+            try:
+                stream.reconfigure(errors="backslashreplace")
+            except (ValueError, OSError):  # pragma: no cover
+                pass
+
     args = argparser.parse_args()
 
 
